@@ -385,7 +385,7 @@ impl Property for C10 {
         "C10"
     }
     fn rule(&self) -> &'static str {
-        "proptest: (a) structured hub messages (both wrappers x both inner kinds; ids; addresses/data of length 0,1,20,31,32,33,..300 with pseudo-random, all-zero or all-0xff content; names/symbols/chains from arbitrary Unicode strings, printable ASCII, 31-33 byte strings, long strings of 63..5000 bytes around powers of two (ASCII and two-byte characters), and invalid UTF-8; amounts {0,1,2^64,2^127-1,random}; decimals 0..255; optional bytes absent / empty / present): abi_encode must equal the harness's own head/tail ABI encoder byte for byte and decode back to the same message; (b) byte strings: uniformly random (optionally with a valid type tag in word 0) and valid encodings with one or two mutations (bit flip, word replaced by special values incl. 2^127, 2^128, 2^32, 2^63, 2^64-32.., offset/length +-k, truncation, trailing bytes, dirty padding / high bytes): no panic, abi_decode succeeds iff the harness's strict canonical decoder accepts, same message, re-encoding reproduces the input. thorough additionally runs a libFuzzer campaign with the same oracle in-target. non-trivial = structured messages, and byte strings of >= 32 bytes whose first word is a valid type tag (they reach the struct decoder); distinct by Debug hash (e) well-formed hub envelopes around a nested message that was mutated before wrapping, or replaced by a blob of 0..69 bytes (shorter than the type word, all-zero, random, with a valid type tag): same oracle as (c) - the envelope alone being canonical must not make a nested non-message acceptable, nor crash the decoder (f) the same messages in well-formed but non-canonical layouts (tails of the dynamic fields in another order, zero words between head and tails, equal fields sharing one tail - in the envelope, in the nested message, or both): same oracle as (c)"
+        "proptest: (a) structured hub messages (both wrappers x both inner kinds; ids; addresses/data of length 0,1,20,31,32,33,..300 with pseudo-random, all-zero or all-0xff content; names/symbols/chains from arbitrary Unicode strings, printable ASCII, 31-33 byte strings, long strings of 63..5000 bytes around powers of two (ASCII and two-byte characters), and invalid UTF-8; amounts {0,1,2^64,2^127-1,random}; decimals 0..255; optional bytes absent / empty / present): abi_encode must equal the harness's own head/tail ABI encoder byte for byte and decode back to the same message; (b) byte strings: uniformly random (optionally with a valid type tag in word 0) and valid encodings with one or two mutations (bit flip, word replaced by special values incl. 2^127, 2^128, 2^32, 2^63, 2^64-32.., offset/length +-k, truncation, trailing bytes, dirty padding / high bytes): no panic, abi_decode succeeds iff the harness's strict canonical decoder accepts, same message, re-encoding reproduces the input. thorough additionally runs a libFuzzer campaign with the same oracle in-target. non-trivial = structured messages, and byte strings of >= 32 bytes whose first word is a valid type tag (they reach the struct decoder); distinct by Debug hash (e) well-formed hub envelopes around a nested message that was mutated before wrapping, or replaced by a blob of 0..69 bytes (shorter than the type word, all-zero, random, with a valid type tag): same oracle as (c) - the envelope alone being canonical must not make a nested non-message acceptable, nor crash the decoder (f) the same messages in well-formed but non-canonical layouts (tails of the dynamic fields in another order, zero words between head and tails, equal fields sharing one tail - in the envelope, in the nested message, or both): same oracle as (c) (g) canonical hub messages wrapped canonically once or twice more: a wrapper may only hold a transfer or a deployment, same oracle as (c)."
     }
     fn assumptions(&self) -> Vec<&'static str> {
         vec!["native 64-bit usize (the dependency's overflow behaviour differs on wasm32)"]
